@@ -118,11 +118,15 @@ def run_history(ctx, path, ops, cj):
 
     def do_query(q):
         m, r, fin = q
+        # the index as callers spell it: a Python int, or (one query in five) a 0-d integer array / NumPy scalar taken from an index array
+        r_model = r
+        sel = (abs(r) * 3 + len(m) + len(obs)) % 10
+        r = np.array(r_model) if sel == 0 else (np.int64(r_model) if sel == 1 else r_model)
         st, val = call(lambda: getattr(rg, m)(r, is_final=fin))
         st0, val0 = call(lambda: getattr(fresh(), m)(r))
         if st != st0 or (st == "ok" and not same_value(val, val0)):
-            ctx.violate(f"{m}({r}) after this history answers {st if st != 'ok' else cls_of(val)}, a fresh uncached object answers {st0 if st0 != 'ok' else cls_of(val0)}"
-                        + ("" if st != st0 else " with different values"), cj, {"kind": "transparency", "method": m, "index_is_minus_n": r == -path.numinterfaces})
+            ctx.violate(f"{m}({r!r}) after this history answers {st if st != 'ok' else cls_of(val)}, a fresh uncached object answers {st0 if st0 != 'ok' else cls_of(val0)}"
+                        + ("" if st != st0 else " with different values"), cj, {"kind": "transparency", "method": m, "index_is_minus_n": r_model == -path.numinterfaces})
         if st == "ok":
             for a in arrays_of(val):
                 if a.flags.writeable:
